@@ -5,7 +5,9 @@ R2 FRAME: the transitive write set of null_move is within {side_to_move, en_pass
    checkers}: placement, castling rights and hash untouched.
 R3: on the Some path the value is the source with side_to_move negated and en_passant = None,
    and the last mutation is the from-scratch cache recomputation (same routine as construction
-   from text, so caches are equal by construction; hash equal by C08.R3)."""
+   from text, so caches are equal by construction; hash equal by C08.R3).
+R4 FROM-SCRATCH (= C03.R2/R3 on update_pin_info): that routine overwrites both caches on every path and collects the
+   full attacker set of the new side to move's king."""
 from .common import *
 from ..bb import bb, cnot
 from ..expr import peel_upd
@@ -14,15 +16,26 @@ LEVEL = 'proof'
 EXHAUSTIVE = True
 EXPLANATION = ('Decision table of the return value, transitive effect set (frame), and value shape of the Some payload '
                'from origin expressions of Board::null_move; all paths of the function at once.')
-NOT_DECIDED = 'nothing of substance (the recomputation routine itself is C03.R3)'
+NOT_DECIDED = 'nothing of substance'
 KEY = 'board::Board::null_move'
 UPI = 'board::Board::update_pin_info'
 BOARD = 'board::Board'
 SELF = ('mem', ('p', 1))
 
 
+def r4(ctx):
+    from . import c03
+    sub = Sub(ctx, {'C03.R2': 'C18.R4', 'C03.R3': 'C18.R4'})
+    if UPI not in ctx.facts().bodies:
+        ctx.inconclusive('C18.R4', 'the from-scratch routine %s is not present' % UPI)
+        return
+    c03.recomputer(sub, 'C03.R2', UPI)
+    c03.r3(sub, [], floor=1)
+
+
 def run(ctx):
     bb(('unit',), ctx.an())
+    r4(ctx)
     s = summary(ctx, KEY, 'C18.R1')
     if s is None:
         return
